@@ -301,7 +301,10 @@ func fsdir() string {
 
 func FSPath(name string) string { return filepath.Join(fsdir(), name) }
 
-func FSWrite(name, content string) { os.WriteFile(FSPath(name), []byte(content), 0o644) }
+func FSWrite(name, content string) {
+	os.MkdirAll(filepath.Dir(FSPath(name)), 0o755)
+	os.WriteFile(FSPath(name), []byte(content), 0o644)
+}
 
 // FSSymlink turns the file into a symbolic link to a file with the same content.
 func FSSymlink(name string) {
